@@ -17,26 +17,32 @@
 bool
 Ftp::ParseIpPort(const char *buf, const char *forceIp, Ip::Address &addr)
 {
-    int h1, h2, h3, h4;
-    int p1, p2;
-    const int n = sscanf(buf, "%d,%d,%d,%d,%d,%d",
+    // long: numbers that do not fit are saturated (not wrapped into range) by the C library, so
+    // that the range checks below still see them as out of range
+    long h1, h2, h3, h4;
+    long p1, p2;
+    const int n = sscanf(buf, "%ld,%ld,%ld,%ld,%ld,%ld",
                          &h1, &h2, &h3, &h4, &p1, &p2);
 
     if (n != 6 || p1 < 0 || p2 < 0 || p1 > 255 || p2 > 255)
+        return false;
+
+    // validate the IP we got even when it is going to be replaced by forceIp
+    if (h1 < 0 || h2 < 0 || h3 < 0 || h4 < 0 || h1 > 255 || h2 > 255 || h3 > 255 || h4 > 255)
         return false;
 
     if (forceIp) {
         addr = forceIp; // but the above code still validates the IP we got
     } else {
         static char ipBuf[1024];
-        snprintf(ipBuf, sizeof(ipBuf), "%d.%d.%d.%d", h1, h2, h3, h4);
+        snprintf(ipBuf, sizeof(ipBuf), "%ld.%ld.%ld.%ld", h1, h2, h3, h4);
         addr = ipBuf;
 
         if (addr.isAnyAddr())
             return false;
     }
 
-    const int port = ((p1 << 8) + p2);
+    const int port = static_cast<int>((p1 << 8) + p2);
 
     if (port <= 0)
         return false;
